@@ -24,6 +24,7 @@ type filler struct {
 	r     *rand.Rand
 	nonil bool // populate every optional section (used when the writer requires one that was left out)
 	big   int  // how many big items (long text, wide table) this instance may still get
+	wide  int  // k > 0: the k-th wire-boundary instance of its type: every list / table whose count travels in one byte gets a count at a boundary of that byte (the k-th of the list, in turn)
 }
 
 // lists whose length is fixed by the format
@@ -32,6 +33,61 @@ var fixedLen = map[string]bool{"HitMapPack1.Hit": true, "HitMapPack1.Error": tru
 // integer fields narrower on the wire than in the struct (the writer's own width)
 var wireBits = map[string]int{
 	"ServerInfoPack.Version": 24, // WriteInt3
+}
+
+// Cells that travel UNSIGNED and narrower than the field that holds them: the
+// value domain of such a field is the domain of its WIRE cell -- every boundary
+// of it (0, 1, the sign bit of the cell, all ones), not the boundaries of the Go
+// type -- plus, now and then, a value the cell cannot hold (the wire carries its
+// low bits: spec PackCodec.WireCell).
+var wireUnsigned = map[string]int{
+	"HitMapPack1.Hit":   16,
+	"HitMapPack1.Error": 16,
+}
+
+// Lists and tables whose element COUNT travels in one byte (max = largest count
+// the writer can express, reserved = entries the writer adds on its own): the
+// count domain is the domain of that byte, so a wire-boundary instance gives
+// them a count at 127 / 128 / 129 / 254 / 255 on the wire.
+type byteCount struct{ max, reserved int }
+
+var wireCount = map[string]byteCount{
+	"CounterPack1.ActiveStat":  {255, 0},
+	"CounterPack1.ActSvcSlice": {255, 0},
+	"EventPack.Attr":           {255, 4}, // uuid / escalation / status / otype travel as attributes
+	"TxRecord.Fields":          {255, 0},
+	"SMBasePack.CpuCore":       {255, 0},
+}
+
+// boundary picks a count at a boundary of the wire cell of key (ok = false: no such cell, or not this time).
+func (g *filler) boundary(key string) (int, bool) {
+	bc, ok := wireCount[key]
+	if !ok || !(g.wide > 0 || g.r.Intn(40) == 0) {
+		return 0, false
+	}
+	half := (bc.max + 1) / 2
+	k := g.r.Intn(5)
+	if g.wide > 0 {
+		k = (g.wide - 1) % 5
+	}
+	return []int{half, bc.max, half + 1, bc.max - 1, half - 1}[k] - bc.reserved, true
+}
+
+// uint draws from the domain of an unsigned wire cell of the given width.
+func (g *filler) uint(bits int) int64 {
+	r := g.r
+	max := int64(1)<<uint(bits) - 1
+	half := int64(1) << uint(bits-1)
+	switch r.Intn(8) {
+	case 0, 1, 2:
+		return []int64{0, 1, half - 2, half - 1, half, half + 1, max - 1, max, 255, 256}[r.Intn(10)]
+	case 3:
+		return g.int(32) // may lie outside the cell: the wire carries the low bits
+	case 4:
+		return int64(r.Intn(300))
+	default:
+		return r.Int63n(max + 1)
+	}
 }
 
 func (g *filler) int(bits int) int64 {
@@ -161,6 +217,10 @@ func (g *filler) scalar(v reflect.Value, key string) {
 		if b, ok := wireBits[key]; ok {
 			bits = b
 		}
+		if b, ok := wireUnsigned[key]; ok {
+			v.SetInt(g.uint(b))
+			return
+		}
 		v.SetInt(g.int(bits))
 	case reflect.Uint, reflect.Uint8, reflect.Uint16, reflect.Uint32, reflect.Uint64:
 		v.SetUint(uint64(g.int(64)) & (^uint64(0) >> uint(64-v.Type().Bits())))
@@ -202,6 +262,9 @@ func (g *filler) fill(v reflect.Value, owner, fname string) {
 			case 2: // keep the constructor's length
 			default:
 				n = r.Intn(7)
+			}
+			if b, ok := g.boundary(key); ok {
+				n = b
 			}
 		}
 		s := reflect.MakeSlice(t, n, n)
@@ -258,6 +321,9 @@ func (g *filler) fillContainer(v reflect.Value, h *container, key string) {
 	n := g.count()
 	if key == "EventPack.Attr" && n > 200 {
 		n = 200 // the attribute count travels in one byte together with four reserved keys
+	}
+	if b, ok := g.boundary(key); ok {
+		n = b
 	}
 	el := tableElem[key]
 	if i := strings.IndexByte(el, ':'); i >= 0 {
@@ -354,6 +420,9 @@ func (g *filler) hook(p interface{}, depth int) {
 		osx := q.OS == pack.OS_OSX && g.r.Intn(2) == 0
 		q.Cpu = g.cpu(win, osx)
 		n := g.r.Intn(4)
+		if b, ok := g.boundary("SMBasePack.CpuCore"); ok {
+			n = b
+		}
 		q.CpuCore = make([]pack.Cpu, n)
 		for i := range q.CpuCore {
 			q.CpuCore[i] = g.cpu(win, osx)
